@@ -56,7 +56,8 @@ T = {
  'C13-q-negation-overwritten': dict(property='C13',
    breaks='QSerialization.serialize_to_python builds the text as a string and the multi-child branch assigns instead of appending: the leading ~ of a negated multi-child Q is lost',
    needs='a negated Q with two or more children anywhere in a constraint/index condition',
-   detected_by='C13: parse_tree / evaluation correspondences with the Lean model (toPy puts ~ in front of the parenthesised chain) and the eval round-trip oracle (VIOLATION with replay)', strengthened='none needed'),
+   detected_by='C13: parse_tree / evaluation correspondences with the Lean model (toPy puts ~ in front of the parenthesised chain) and the eval round-trip oracle (VIOLATION with replay)',
+   strengthened='none needed; the sub-agent\'s patch was rebased by hand onto the repaired QSerialization (fix: 221644f changed the same function) and re-confirmed'),
  'C15-m2m-drop-replaced-not-added': dict(property='C15',
    breaks='DeleteModel.mutate replaces the accumulated SQL on every many-to-many field instead of adding to it: only the last M2M table (and the model table) is dropped',
    needs='a deleted model / purged app model with at least two ManyToManyFields with auto-created tables',
@@ -66,6 +67,10 @@ T = {
    breaks='get_unapplied_evolutions delegates to get_applied_evolutions without forwarding the database: pending evolutions of a non-default database are computed from the default database\'s records',
    needs='two databases; the default one evolved (and the label recorded there) before the other one',
    detected_by='C16: per-database oracle after evolving each database in turn (VIOLATION with replay: after evolving `other` its models are not at the evolved signature)', strengthened='none needed'),
+ 'C14-state-clone-shares-unique-indexes': dict(property='C14',
+   breaks='DatabaseState.clone() copies each table\'s index dict but shares the unique-index dict with the original: the SQL generation for the preview (on the clone) leaks its unique-index bookkeeping into the generation for the execution',
+   needs='a pending evolution that adds or removes a unique_together entry, run through the Evolver (preview and execution are two generations)',
+   detected_by='C14: previewed vs executed statements within one process, hand-written and hinted path (VIOLATION with replay: DROP INDEX / CREATE UNIQUE INDEX previewed but never executed)', strengthened='none needed'),
 }
 for d, meta in T.items():
     p = os.path.join(V, 'seeded', d)
